@@ -139,7 +139,25 @@ func scenarioC06Encoded(c *hlib.RunCtx) *hlib.Violation {
 			// record sizes that are exact multiples of the 32-byte unit
 			name = fmt.Sprintf("%d|", i) + strings.Repeat("n", 16+32*t.Draw(8)-len(fmt.Sprintf("%d|", i)))
 		}
-		pairs = append(pairs, refformat.Pair{Name: name, Value: uint64(t.Draw(1 << 20))})
+		val := uint64(t.Draw(1 << 20))
+		switch t.Biased(5, 3, 4) {
+		case 1:
+			val = 0
+		case 2:
+			val = 1<<32 + uint64(t.Draw(1<<20))
+		case 3:
+			val = ^uint64(0) - uint64(t.Draw(3))
+		case 4:
+			val = 1 << 63
+		}
+		pairs = append(pairs, refformat.Pair{Name: name, Value: val})
+	}
+	if t.Bool(1, 8) {
+		// one hash chain of hundreds of records
+		for _, nm := range refformat.CollidingNames(fmt.Sprintf("z%d/", t.Draw(50)), 100+t.Draw(300)) {
+			pairs = append(pairs, refformat.Pair{Name: nm, Value: uint64(1 + t.Draw(9))})
+		}
+		w.s.Probe("long-chain-file")
 	}
 	var data []byte
 	var err error
